@@ -351,29 +351,27 @@ def execute(script):
                             Lp // 1000, [nd.lp.chain_manager.coinstate.head().height for nd in nodes]))
             return res
         res.bump('probe:shared_head_reached')
-        # ---- a valid transaction broadcast by one node reaches every pool
+        # ---- a valid transaction broadcast by one node reaches every pool; then a pool with history: a pending
+        #      transaction is overtaken by a conflicting one in the next block, and a later valid transaction that shares
+        #      an input with the evicted one must still reach every pool
         origin = nodes[(cfg.get('origin', 0) + 1) % n]
-        shadow_head = None
-        # ledger at the shared head, by replay of the node's own chain through the reference
-        ref = rules.RefChain()
-        cs = origin.lp.chain_manager.coinstate
-        path = []
-        cur = cs.head()
-        while True:
-            path.append(cur)
-            if cur.previous_block_hash == b'\x00' * 32:
-                break
-            cur = cs.block_by_hash[cur.previous_block_hash]
-        path.reverse()
-        ref.add_root(path[0])
-        for b in path[1:]:
-            ref.add(b)
-        hb = ref.blocks[new_head]
-        spendable = sorted(r for r, (v, pub) in hb.utxo.items() if W.key_by_pub(pub) is not None)
-        if spendable:
-            r0 = spendable[cfg['tx_spec']['ins'][0] % len(spendable)]
-            v0, pub0 = hb.utxo[r0]
-            tx = W.make_tx([r0], [(v0 - 1, W.key(3))] if v0 > 1 else [(v0, W.key(3))], [W.key_by_pub(pub0)])
+
+        def ledger_at(cs):
+            ref = rules.RefChain()
+            path = []
+            cur = cs.head()
+            while True:
+                path.append(cur)
+                if cur.previous_block_hash == b'\x00' * 32:
+                    break
+                cur = cs.block_by_hash[cur.previous_block_hash]
+            path.reverse()
+            ref.add_root(path[0])
+            for b_ in path[1:]:
+                ref.add(b_)
+            return ref.blocks[cs.current_chain_hash]
+
+        def broadcast_and_wait(tx, what):
             tid = rules.tx_id(tx)
             k.current = origin
             origin_call['on'] = True
@@ -386,13 +384,53 @@ def execute(script):
             k.run(k.now + 120_000, stop=lambda: all(any(rules.tx_id(t) == tid for t in nd.lp.chain_manager.transaction_pool) for nd in others)
                   or storm())
             if loop_errors() or relay_violation():
-                return res
+                return False
             missing = [nd.name for nd in others if not any(rules.tx_id(t) == tid for t in nd.lp.chain_manager.transaction_pool)]
             if missing:
-                res.violate(PROP, 'C10/transaction-did-not-reach-every-pool', 'after 120 virtual s the broadcast transaction is missing '
-                            'from the pools of %s' % missing)
+                res.violate(PROP, 'C10/transaction-did-not-reach-every-pool', 'after 120 virtual s the broadcast transaction (%s) is missing '
+                            'from the pools of %s' % (what, missing))
+                return False
+            return True
+
+        hb = ledger_at(origin.lp.chain_manager.coinstate)
+        spendable = sorted(r for r, (v, pub) in hb.utxo.items() if W.key_by_pub(pub) is not None)
+        if len(spendable) >= 2:
+            i0 = cfg['tx_spec']['ins'][0] % len(spendable)
+            r1, r2 = spendable[i0], spendable[(i0 + 1) % len(spendable)]
+            (v1, p1), (v2, p2) = hb.utxo[r1], hb.utxo[r2]
+            ts_tx = W.make_tx([r1, r2], [(v1 + v2 - 1, W.key(3))], [W.key_by_pub(p1), W.key_by_pub(p2)])
+            if not broadcast_and_wait(ts_tx, 'first'):
                 return res
             res.bump('probe:transaction_in_every_pool')
+            # the next block (mined elsewhere, here by the harness on the first node) spends r1 differently
+            k.run(k.now + 2000)
+            cm = miner.lp.chain_manager
+            cs = cm.coinstate
+            tm = W.make_tx([r1], [(v1, W.key(5))], [W.key_by_pub(p1)])
+            now_s = int(miner.clock_s())
+            blk2 = W.mine_honest(cs, [tm], W.key(8), max(cs.head().timestamp + 1, now_s))
+            k.current = miner
+            bs.DefaultBlockStore.instance = miner.store
+            try:
+                cs3 = cs.add_block(blk2, now_s)
+                cm.set_coinstate(cs3)
+                miner.lp.network_manager.broadcast_message(M.DataMessage(M.DATA_BLOCK, blk2))
+                miner.lp.disk_interface.save_block(blk2)
+                miner.lp.disk_interface.flush_blocks()
+            finally:
+                k.current = None
+            h2 = blk2.hash()
+            k.run(k.now + Lp, stop=lambda: all(nd.lp.chain_manager.coinstate.current_chain_hash == h2 for nd in nodes) or storm())
+            if loop_errors() or relay_violation():
+                return res
+            if not all(nd.lp.chain_manager.coinstate.current_chain_hash == h2 for nd in nodes):
+                res.violate(PROP, 'C10/new-block-not-adopted', 'the second mined block did not become every node\'s head')
+                return res
+            k.run(k.now + 3000)
+            t2 = W.make_tx([r2], [(v2, W.key(6))], [W.key_by_pub(p2)])
+            if not broadcast_and_wait(t2, 'sharing an input with a transaction that the last block made invalid'):
+                return res
+            res.bump('probe:transaction_after_pool_history')
         # ---- relay traffic stops: let everything drain, then nothing but polls for a while
         k.run(k.now + 60_000, stop=storm)
         if loop_errors() or relay_violation():
@@ -443,5 +481,6 @@ def describe():
                                 'the tie-breaking block is mined by the harness acting as the miner thread']},
         'assumptions': ['liveness bound L from DESIGN 6.C10', 'clock skew <= 10 s'],
         'expected_probes': ['converged', 'probe:shared_head_reached', 'probe:transaction_in_every_pool', 'probe:relay_quiescent',
-                            'fault:restart', 'fault:partition', 'fault:slow_node', 'fault:connection_reset'],
+                            'probe:transaction_after_pool_history', 'fault:restart', 'fault:partition', 'fault:slow_node',
+                            'fault:connection_reset'],
     }
